@@ -258,9 +258,10 @@ def main(argv):
                                                    or any(pid in tag_props(t) for ln, ts in meta['tags'].items() for t in ts if fn_range(meta, ov[0], int(ln)))):
                     undecided.append('%s: clause %s (of another property) failed inside %s; the %s obligations of that function were proved assuming it, '
                                      'so they are not decided' % (un, ','.join(d['tags']), fn, pid))
-                elif d['kind'] != 'post' and fn and fn.split('::')[-1] in reach.setdefault(un, helper_reach(meta, r['path'], pid)):
-                    undecided.append('%s: clause %s (of another property) failed inside %s, which functions carrying %s obligations call: its postconditions '
-                                     'were proved assuming the failed clause, so those callers are not decided' % (un, ','.join(d['tags']), fn, pid))
+                elif fn and fn.split('::')[-1] in reach.setdefault(un, helper_reach(meta, r['path'], pid)):
+                    # (a failed POSTCONDITION of a callee counts here too: its callers were verified against it)
+                    undecided.append('%s: clause %s (of another property) failed inside %s, which functions carrying %s obligations call: they were '
+                                     'verified against its contract, so they are not decided' % (un, ','.join(d['tags']), fn, pid))
                 continue
             # untagged failure
             if ov and pid in ov[1].get('props', []) and d['kind'] in ('overflow', 'bounds', 'div0', 'pre') and not d.get('user_pre'):
